@@ -1,3 +1,39 @@
-/- Model for C11: not written yet -/
+import HapVerif.Model.C02
+/-
+C11 — no needless reloads.  Re-uses M-Dyn (`HapVerif.C02`): `alignSlots`, `checkBackendPair`.
+Spec: after `alignSlots` a dynamic backend has at least `minFree` empty slots, a slot count that
+is a positive multiple of the block size; an endpoint-only change that fits in the existing slots
+(no label, resolver, preserved cookie; all responses OK) is applied without reload; a no-op
+re-notification is neither a reload nor a command.
+-/
 namespace HapVerif.C11
+open HapVerif.C02
+
+def blockOf (b : Nat) : Nat := if b < 1 then 1 else b
+
+/-- post-condition of `alignSlots` for a dynamic backend -/
+def alignPost (eps : List EP) (minFree blockSize : Nat) : Bool :=
+  minFree ≤ (eps.filter (·.isEmpty)).length && eps.length % blockOf blockSize = 0 && 0 < eps.length
+
+def alignOracle (dyn : Bool) (before after : List EP) (minFree blockSize : Nat) : Option String :=
+  if !dyn then (if after = before then none else some "slots-added-to-static-backend") else
+  if after.take before.length ≠ before then some "align-changed-existing-endpoints" else
+  if !(alignPost after minFree blockSize) then some "align-postcondition" else
+  if !(namesNodup after) then some "duplicate-server-names" else none
+
+/-- hypotheses of "fits in the existing slots" -/
+def fits (old cur : List EP) : Bool :=
+  cur.length ≤ old.length && cur.all (fun e => e.enabled && e.label = "") && old.all (fun e => e.label = "") &&
+  !hasDupTarget old && !hasDupTarget cur
+
+/-- `backendsMatch(add, del)` of backends.go: equal apart from empty endpoints and endpoint order -/
+def backendsMatch (sameRest : Bool) (add del : List EP) : Bool :=
+  sameRest &&
+    ((add.filter (!·.isEmpty)).all (fun e => (del.filter (!·.isEmpty)).contains e) &&
+     (del.filter (!·.isEmpty)).all (fun e => (add.filter (!·.isEmpty)).contains e))
+
+/-- `Backends.Shrink` for one re-created backend: the pair is dropped and the old object stays -/
+def shrinks (sameRest : Bool) (old cur : List EP) : Bool :=
+  cur.length ≤ old.length && backendsMatch sameRest cur old
+
 end HapVerif.C11
